@@ -323,7 +323,7 @@ PROPS = {
                    "4/8/16-byte big modes - the generic big-mode arm does not finish); postgres from_sql, serde human-readable, num-bigint not covered (cost); the third-party decoders are executed, not specified",
         technique="Kani contract harnesses over all inputs up to a stated length per width (feature codecs); deductive contracts (Verus, all widths and lengths) on the byte-slice and digit-string parsers underneath",
         units=["core", "kernels", "basics", "byteslice", "frombase"],
-        kani=dict(sweep_only=["c17n::c17n_pg_w8", "c17n::c17n_pg_w64", "c17n::c17n_pg_w65", "c17n::c17n_pg_w256"], features="codecs", quick=hs("c17", None, r"_w(64|16)$|_p\d.*_w(7|8|60)$|_k\d.*_w(60|64)$") + hs("c09", r"str_non_ascii"), thorough=hs("c17") + hs("c09", r"str_non_ascii|c09_from_str"), timeout_quick=3000, timeout_thorough=7200,
+        kani=dict(sweep_only=["c17n::c17n_pg_w8", "c17n::c17n_pg_w64", "c17n::c17n_pg_w65", "c17n::c17n_pg_w256", "c17::native::c17nd_from_der_w8", "c17::native::c17nd_from_der_w64", "c17::native::c17nd_from_der_w65", "c17::native::c17nd_from_der_w128"], features="codecs", quick=hs("c17", None, r"_w(64|16)$|_p\d.*_w(7|8|60)$|_k\d.*_w(60|64)$") + hs("c09", r"str_non_ascii"), thorough=hs("c17") + hs("c09", r"str_non_ascii|c09_from_str"), timeout_quick=3000, timeout_thorough=7200,
                   bounds="all byte strings of length 0..BYTES+4; quick: 65 bits (all families) and 7/8/60 for the unpartitioned ones; thorough: + 16, 64 and every partition"),
         explanation="decode specs written from the format definitions; c17_spec_* prove they invert c16's encode specs",
         trusted=COMMON_TRUST + ["Kani stub: alloc::fmt::format (error text)"],
